@@ -1,4 +1,5 @@
 import Ztr.Props.C07
+import Ztr.Props.C04
 import Ztr.Model.Runner
 /-! # C02 — the verdict is 'failed' exactly when something went wrong (partial)
 
@@ -36,5 +37,508 @@ theorem C02_child_channel (spawnFailed : Bool) (stderr : Channel.Bytes) :
   | commError => exact Or.inl rfl
   | ok ran f e => exact Or.inr (Or.inl ⟨ran, f, e, rfl⟩)
   | crash => exact Or.inr (Or.inr rfl)
+
+end Ztr.Runner
+
+/-! ## the verdict of a process from its trace
+
+`failed` is computed from the runner's lists; the theorems below tie the lists to what *happened*
+(the events of the trace), for every world, oracle and option set: the lists have exactly one entry
+per failure report, per error report, per layer `setUp` that raised, per layer `tearDown` that raised
+and per child that came back bad — so the verdict is 'failed' iff one of those events exists or a
+module could not be imported. -/
+namespace Ztr.Runner
+open Ztr.Layers Ztr.Result
+
+def isFailEv : Ev → Bool
+  | .test (.report _ b _) => (b == .failure || b == .subFailure || b == .unexpectedSuccess)
+  | _ => false
+
+def isErrEv (cb : Nat → Bool) : Ev → Bool
+  | .test (.report _ b _) => (b == .error || b == .subError)
+  | .setUp _ ok => !ok
+  | .tearDown _ r => r == .raised
+  | .spawn l _ => cb l
+  | _ => false
+
+/-- the lists agree with the events (vacuous once a KeyboardInterrupt is propagating: the run is
+being abandoned) -/
+def Counted (cb : Nat → Bool) (s : PS) : Prop :=
+  s.failures.length = s.trace.countP isFailEv ∧ s.errors.length = s.trace.countP (isErrEv cb)
+
+theorem countP_tests_fail (evs : List REv) : (evs.map Ev.test).countP isFailEv = (tallyEvs evs).1 := by
+  induction evs with
+  | nil => rfl
+  | cons e r ih =>
+    cases e with
+    | report t b k => cases b <;> simp [List.countP_cons, isFailEv, tallyEvs, ih]
+    | _ => simp [List.countP_cons, isFailEv, tallyEvs, ih]
+
+theorem countP_tests_err (cb : Nat → Bool) (evs : List REv) :
+    (evs.map Ev.test).countP (isErrEv cb) = (tallyEvs evs).2.1 := by
+  induction evs with
+  | nil => rfl
+  | cons e r ih =>
+    cases e with
+    | report t b k => cases b <;> simp [List.countP_cons, isErrEv, tallyEvs, ih]
+    | _ => simp [List.countP_cons, isErrEv, tallyEvs, ih]
+
+theorem counted_emit_neutral {cb : Nat → Bool} {s : PS} (h : Counted cb s) (e : Ev)
+    (h1 : isFailEv e = false) (h2 : isErrEv cb e = false) : Counted cb (s.emit e) := by
+  unfold Counted at *
+  show s.failures.length = (s.trace ++ [e]).countP isFailEv ∧ s.errors.length = (s.trace ++ [e]).countP (isErrEv cb)
+  simp [List.countP_append, List.countP_cons, h1, h2, h.1, h.2]
+
+theorem counted_tdOne {cb : Nat → Bool} (w : World) (l : Nat) {s : PS} (h : Counted cb s) : Counted cb (tdOne w l s) := by
+  unfold tdOne
+  by_cases ht : (w.info l).hasTearDown = true
+  · simp only [ht, if_true]
+    by_cases hr : w.tearDownResult l (countTearDown l s.trace) = .raised
+    · simp only [hr, if_true]
+      unfold Counted at *
+      show s.failures.length = (s.trace ++ [Ev.tearDown l TD.raised]).countP isFailEv ∧
+        (s.errors ++ [Err.layerTearDown l]).length = (s.trace ++ [Ev.tearDown l TD.raised]).countP (isErrEv cb)
+      simp [List.countP_append, List.countP_cons, isFailEv, isErrEv, h.1, h.2]
+    · simp only [hr, if_false]
+      have := counted_emit_neutral h (.tearDown l (w.tearDownResult l (countTearDown l s.trace))) rfl
+        (by simp [isErrEv, hr])
+      exact this
+  · simp only [ht, Bool.false_eq_true, if_false]
+    exact h
+
+theorem counted_tearDownList {cb : Nat → Bool} (w : World) (opt : Bool) :
+    ∀ (order : List Nat) (s : PS), Counted cb s → Counted cb (tearDownList w opt order s).1
+  | [], s, h => by simpa [tearDownList] using h
+  | l :: ls, s, h => by
+    rw [tearDownList_cons]
+    split
+    · exact counted_tdOne w l h
+    · exact counted_tearDownList w opt ls _ (counted_tdOne w l h)
+
+/-- `setup_layer` records nothing itself: afterwards the error list is one short exactly when it
+returned with a failure (the caller, `run_layer`, adds the entry) -/
+def CountedSetup (cb : Nat → Bool) (s : PS) (ok : Bool) : Prop :=
+  s.failures.length = s.trace.countP isFailEv ∧
+  s.errors.length + (if ok then 0 else 1) = s.trace.countP (isErrEv cb)
+
+theorem cs_emit_fail {cb : Nat → Bool} {S : PS} (hc : Counted cb S) (l : Nat) :
+    CountedSetup cb (S.emit (.setUp l false)) false := by
+  unfold CountedSetup Counted at *
+  show S.failures.length = (S.trace ++ [Ev.setUp l false]).countP isFailEv ∧
+    S.errors.length + 1 = (S.trace ++ [Ev.setUp l false]).countP (isErrEv cb)
+  simp [List.countP_append, isFailEv, isErrEv, hc.1, hc.2]
+
+theorem cs_emit_ok {cb : Nat → Bool} {S : PS} (hc : Counted cb S) (l : Nat) (su : List Nat) :
+    CountedSetup cb { (S.emit (.setUp l true)) with setup := su } true := by
+  unfold CountedSetup Counted at *
+  show S.failures.length = (S.trace ++ [Ev.setUp l true]).countP isFailEv ∧
+    S.errors.length + 0 = (S.trace ++ [Ev.setUp l true]).countP (isErrEv cb)
+  simp [List.countP_append, isFailEv, isErrEv, hc.1, hc.2]
+
+theorem cs_mark {cb : Nat → Bool} {S : PS} (hc : Counted cb S) (su : List Nat) :
+    CountedSetup cb { S with setup := su } true := by
+  unfold CountedSetup Counted at *
+  exact ⟨hc.1, by simpa using hc.2⟩
+
+theorem counted_of_cs {cb : Nat → Bool} {S : PS} (h : CountedSetup cb S true) : Counted cb S := by
+  unfold CountedSetup at h
+  exact ⟨h.1, by simpa using h.2⟩
+
+theorem counted_setupLayerF {cb : Nat → Bool} (w : World) :
+    ∀ (f l : Nat) (s : PS), Counted cb s → CountedSetup cb (setupLayerF w f l s).1 (setupLayerF w f l s).2 := by
+  intro f
+  induction f with
+  | zero => intro l s h; exact cs_mark h s.setup
+  | succ f ih =>
+    intro l s h
+    have hb : ∀ (bs : List Nat) (s : PS), Counted cb s →
+        CountedSetup cb (setupBases (setupLayerF w f) bs s).1 (setupBases (setupLayerF w f) bs s).2 := by
+      intro bs
+      induction bs with
+      | nil => intro s h; exact cs_mark h s.setup
+      | cons b bs ihb =>
+        intro s h
+        rw [setupBases]
+        have h1 := ih b s h
+        cases hr : (setupLayerF w f b s).2
+        · simp only [Bool.false_eq_true, if_false]
+          rw [hr] at h1 ⊢
+          exact h1
+        · simp only [if_true]
+          rw [hr] at h1
+          exact ihb _ (counted_of_cs h1)
+    rw [setupLayerF]
+    split
+    · exact cs_mark h s.setup
+    · have h1 := hb (w.graph.bases l) s h
+      revert h1
+      generalize setupBases (setupLayerF w f) (w.graph.bases l) s = R
+      intro h1
+      simp only []
+      cases hr : R.2
+      · simp only [Bool.not_false, if_true]
+        exact h1
+      · simp only [Bool.not_true, Bool.false_eq_true, if_false]
+        rw [hr] at h1
+        have hc := counted_of_cs h1
+        split
+        · cases hraise : w.setUpRaises l (countSetUp l R.1.trace)
+          · simp only [Bool.not_false, Bool.false_eq_true, if_false]
+            exact cs_emit_ok hc l _
+          · simp only [Bool.not_true, if_true]
+            exact cs_emit_fail hc l
+        · exact cs_mark hc _
+
+theorem counted_iterDone {cb : Nat → Bool} (w : World) (o : Opts) (l : Nat) (tests : List Proto.TestDef) {s : PS}
+    (h : Counted cb s) : Counted cb (iterDone w o l tests s) := by
+  have hc := C12_counts (resultCfg w o l) tests
+  unfold iterDone iterLogged Counted PS.emit at *
+  simp only [List.length_append, List.length_map, List.countP_append, List.countP_cons, List.countP_nil,
+    countP_tests_fail, countP_tests_err, isFailEv, isErrEv, Bool.false_eq_true, if_false, Nat.add_zero]
+  have e1 : (tallyEvs (runTests (resultCfg w o l) tests {}).evs).1 =
+      (runTests (resultCfg w o l) tests {}).failures.length + (runTests (resultCfg w o l) tests {}).unexpected.length := by
+    rw [← hc]; rfl
+  have e2 : (tallyEvs (runTests (resultCfg w o l) tests {}).evs).2.1 = (runTests (resultCfg w o l) tests {}).errors.length := by
+    rw [← hc]; rfl
+  rw [e1, e2, h.1, h.2]
+  omega
+
+/-- invariant of the layer loop: the lists are counted, or the run is being abandoned -/
+def CountedOrInt (cb : Nat → Bool) (s : PS) : Prop := s.interrupted = true ∨ Counted cb s
+
+theorem counted_runIterations {cb : Nat → Bool} (w : World) (o : Opts) (l : Nat) (tests : List Proto.TestDef) :
+    ∀ (n : Nat) (s : PS), Counted cb s → CountedOrInt cb (runIterations w o l tests n s) := by
+  intro n
+  induction n with
+  | zero => intro s h; exact Or.inr h
+  | succ n ih =>
+    intro s h
+    rw [runIterations_succ]
+    have hna := runTests_not_aborted (resultCfg w o l) tests
+    simp only [hna, Bool.false_eq_true, if_false]
+    split
+    · exact Or.inl rfl
+    · split
+      · exact Or.inr (counted_iterDone w o l tests h)
+      · exact ih _ (counted_iterDone w o l tests h)
+
+
+theorem interrupted_tdOne (w : World) (l : Nat) (s : PS) : (tdOne w l s).interrupted = s.interrupted := by
+  unfold tdOne
+  by_cases ht : (w.info l).hasTearDown = true
+  · simp only [ht, if_true]
+    split <;> rfl
+  · simp [ht]
+
+theorem interrupted_tearDownList (w : World) (opt : Bool) :
+    ∀ (order : List Nat) (s : PS), (tearDownList w opt order s).1.interrupted = s.interrupted
+  | [], s => by simp [tearDownList]
+  | l :: ls, s => by
+    rw [tearDownList_cons]
+    split
+    · exact interrupted_tdOne w l s
+    · rw [interrupted_tearDownList w opt ls, interrupted_tdOne]
+
+theorem coi_tearDownList {cb : Nat → Bool} (w : World) (opt : Bool) (order : List Nat) {s : PS}
+    (h : CountedOrInt cb s) : CountedOrInt cb (tearDownList w opt order s).1 := by
+  rcases h with h | h
+  · exact Or.inl (by rw [interrupted_tearDownList]; exact h)
+  · exact Or.inr (counted_tearDownList w opt order s h)
+
+attribute [local irreducible] runIterations setupLayer tearDownUnneeded in
+theorem counted_runLayer {cb : Nat → Bool} (w : World) (o : Opts) (l : Nat) (tests : List Proto.TestDef) {s : PS}
+    (h : Counted cb s) : CountedOrInt cb (runLayer w o l tests s).1 := by
+  rw [runLayer_eq]
+  have h0 : Counted cb (rlHeader o l s) := by
+    unfold rlHeader
+    split
+    · exact h
+    · exact counted_emit_neutral h _ rfl rfl
+  have h1 : Counted cb (tearDownUnneeded w (gather w.graph l) false (rlHeader o l s)).1 := by
+    have : (tearDownUnneeded w (gather w.graph l) false (rlHeader o l s)).1 =
+        (tearDownList w false (orderByBases w.graph ((rlHeader o l s).setup.filter (fun x => !(gather w.graph l).contains x))).reverse
+          (rlHeader o l s)).1 := by
+      unfold tearDownUnneeded; rfl
+    rw [this]
+    exact counted_tearDownList w false _ _ h0
+  have h2 : CountedSetup cb (rlReady w o l s)
+      (setupLayer w l (tearDownUnneeded w (gather w.graph l) false (rlHeader o l s)).1).2 := by
+    have : rlReady w o l s = (setupLayerF w (l + 1) l (tearDownUnneeded w (gather w.graph l) false (rlHeader o l s)).1).1 := by
+      unfold rlReady setupLayer; rfl
+    have e2 : (setupLayer w l (tearDownUnneeded w (gather w.graph l) false (rlHeader o l s)).1).2 =
+        (setupLayerF w (l + 1) l (tearDownUnneeded w (gather w.graph l) false (rlHeader o l s)).1).2 := by
+      unfold setupLayer; rfl
+    rw [this, e2]
+    exact counted_setupLayerF w _ _ _ h1
+  split
+  · exact Or.inr h1
+  · cases hok : (setupLayer w l (tearDownUnneeded w (gather w.graph l) false (rlHeader o l s)).1).2
+    · simp only [Bool.not_false, if_true]
+      rw [hok] at h2
+      unfold CountedSetup at h2
+      right
+      unfold Counted
+      show (rlReady w o l s).failures.length = _ ∧ ((rlReady w o l s).errors ++ [Err.layerSetUp l]).length = _
+      simp only [List.length_append, List.length_singleton]
+      exact ⟨h2.1, by simpa using h2.2⟩
+    · simp only [Bool.not_true, Bool.false_eq_true, if_false]
+      rw [hok] at h2
+      have hc : Counted cb { rlReady w o l s with ran := 0 } := counted_of_cs h2
+      have := counted_runIterations (cb := cb) w o l tests (if o.repeat_ = 0 then 1 else o.repeat_) _ hc
+      revert this
+      generalize runIterations w o l tests (if o.repeat_ = 0 then 1 else o.repeat_) { rlReady w o l s with ran := 0 } = R
+      intro this
+      exact this
+
+theorem coi_layerLoop {cb : Nat → Bool} (w : World) (o : Opts) :
+    ∀ (layers : List (Nat × List Proto.TestDef)) (s : PS), Counted cb s → CountedOrInt cb (layerLoop w o layers s).1
+  | [], s, h => Or.inr h
+  | (l, tests) :: rest, s, h => by
+    rw [layerLoop]
+    have h1 := counted_runLayer (cb := cb) w o l tests h
+    split
+    · exact h1
+    · rename_i hfl
+      have hni : (runLayer w o l tests s).1.interrupted = false := by
+        cases hh : (runLayer w o l tests s).1.interrupted
+        · rfl
+        · simp [hh] at hfl
+      have hc : Counted cb (runLayer w o l tests s).1 := by
+        rcases h1 with h1 | h1
+        · rw [hni] at h1; exact Bool.noConfusion h1
+        · exact h1
+      split
+      · split
+        · exact h1
+        · exact coi_layerLoop w o rest _ hc
+      · split
+        · exact h1
+        · split
+          · exact h1
+          · exact coi_layerLoop w o rest _ hc
+
+theorem counted_spawnAll {cb : Nat → Bool} (o : Opts) :
+    ∀ (rest : List (Nat × List Proto.TestDef)) (n : Nat) (s : PS), Counted cb s → Counted cb (spawnAll o cb rest n s)
+  | [], _, s, h => by simpa [spawnAll] using h
+  | (l, _) :: rest, n, s, h => by
+    rw [spawnAll]
+    split
+    · exact h
+    · apply counted_spawnAll o rest
+      cases hcb : cb l
+      · simp only [Bool.false_eq_true, if_false]
+        exact counted_emit_neutral h _ rfl (by simp [isErrEv, hcb])
+      · simp only [if_true]
+        unfold Counted at *
+        show s.failures.length = (s.trace ++ [Ev.spawn l n]).countP isFailEv ∧
+          (s.errors ++ [Err.child l]).length = (s.trace ++ [Ev.spawn l n]).countP (isErrEv cb)
+        simp [List.countP_append, isFailEv, isErrEv, hcb, h.1, h.2]
+
+theorem interrupted_spawnAll (o : Opts) (cb : Nat → Bool) :
+    ∀ (rest : List (Nat × List Proto.TestDef)) (n : Nat) (s : PS), (spawnAll o cb rest n s).interrupted = s.interrupted
+  | [], _, s => by simp [spawnAll]
+  | (l, _) :: rest, n, s => by
+    rw [spawnAll]
+    split
+    · rfl
+    · rw [interrupted_spawnAll o cb rest]
+      split <;> rfl
+
+/-- the lists of the final state are counted, in every process that is not abandoned -/
+theorem counted_finalState (w : World) (o : Opts) (cb : Nat → Bool) :
+    CountedOrInt cb (finalState w o cb) := by
+  have hstart : Counted cb (fsStart w o) := by
+    unfold fsStart
+    split
+    · exact counted_emit_neutral (s := {}) ⟨rfl, rfl⟩ _ rfl rfl
+    · exact ⟨rfl, rfl⟩
+  have hloop : CountedOrInt cb (fsLoop w o).1 := by
+    unfold fsLoop
+    split
+    · exact Or.inr hstart
+    · exact coi_layerLoop w o _ _ hstart
+  rw [finalState_eq]
+  split
+  · exact hloop
+  · have hsp : CountedOrInt cb (fsSpawned w o cb) := by
+      unfold fsSpawned
+      split
+      · rcases hloop with h | h
+        · exact Or.inl (by rw [interrupted_spawnAll]; exact h)
+        · exact Or.inr (counted_spawnAll o _ _ _ h)
+      · exact hloop
+    have : (tearDownUnneeded w [] true (fsSpawned w o cb)).1 =
+        (tearDownList w true (orderByBases w.graph ((fsSpawned w o cb).setup.filter (fun x => !([] : List Nat).contains x))).reverse
+          (fsSpawned w o cb)).1 := by
+      unfold tearDownUnneeded; rfl
+    rw [this]
+    exact coi_tearDownList w true _ hsp
+
+/-- **C02_verdict_iff_trace** — for every world, every oracle of layer outcomes, every option set and
+every process role, in a run that is not abandoned by a KeyboardInterrupt: the verdict of the process
+is 'failed' **iff** a test module could not be imported, or its trace contains a failure / error /
+unexpected-success / failing-sub-test report, a layer `setUp` that raised, a layer `tearDown` that
+raised (NotImplementedError is not an error), or a child that came back bad (`cb`, decided by the
+channel: `C07_*`).  What tests write to stdout/stderr is not an input of the verdict at all. -/
+theorem C02_verdict_iff_trace (w : World) (o : Opts) (cb : Nat → Bool)
+    (hint : (runProcess w o cb).interrupted = false) :
+    (runProcess w o cb).failed = true ↔
+      w.importErrors > 0 ∨ ∃ e ∈ (runProcess w o cb).trace, isFailEv e = true ∨ isErrEv cb e = true := by
+  have hc : Counted cb (finalState w o cb) := by
+    rcases counted_finalState w o cb with h | h
+    · have : (finalState w o cb).interrupted = false := hint
+      rw [this] at h; exact Bool.noConfusion h
+    · exact h
+  rw [C02_verdict]
+  show _ ∨ (finalState w o cb).failures ≠ [] ∨ (finalState w o cb).errors ≠ [] ↔
+    _ ∨ ∃ e ∈ (finalState w o cb).trace, isFailEv e = true ∨ isErrEv cb e = true
+  have hf : (finalState w o cb).failures ≠ [] ↔ ∃ e ∈ (finalState w o cb).trace, isFailEv e = true := by
+    rw [← List.length_pos_iff, hc.1, List.countP_pos_iff]
+  have he : (finalState w o cb).errors ≠ [] ↔ ∃ e ∈ (finalState w o cb).trace, isErrEv cb e = true := by
+    rw [← List.length_pos_iff, hc.2, List.countP_pos_iff]
+  rw [hf, he]
+  constructor
+  · rintro (h | ⟨e, he1, he2⟩ | ⟨e, he1, he2⟩)
+    · exact Or.inl h
+    · exact Or.inr ⟨e, he1, Or.inl he2⟩
+    · exact Or.inr ⟨e, he1, Or.inr he2⟩
+  · rintro (h | ⟨e, he1, he2 | he2⟩)
+    · exact Or.inl h
+    · exact Or.inr (Or.inl ⟨e, he1, he2⟩)
+    · exact Or.inr (Or.inr ⟨e, he1, he2⟩)
+
+
+/-! ## the whole run: parent and children
+
+What can happen to a child is a parameter (`fate`): it completes and its report arrives, or it is
+*lost* — it could not be started, died or was killed at any point, or its report was cut short; by
+`C07_truncation`, `C07_spawn_failure` and `C07_never_crash` the parent then records a communication
+error for the layer and nothing else.  A child that completes is bad for the parent iff its report
+lists a failure or an error (`C07_roundtrip`: exactly the child's lists arrive). -/
+
+inductive Fate
+  | completes | lost
+  deriving DecidableEq, Repr
+
+/-- the resume number the parent hands to the child for layer `l` -/
+def numberOf (w : World) (o : Opts) (l : Nat) : Nat :=
+  (if o.processes > 1 then 1 else 0) + ((fsLoop w o).2.map (·.1)).idxOf l
+
+/-- the child process for layer `l` (children never spawn) -/
+def childOut (w : World) (o : Opts) (l : Nat) : Outcome :=
+  runProcess w { o with resume := some (l, numberOf w o l) } (fun _ => false)
+
+/-- how the parent sees the child for layer `l` -/
+def cbOf (w : World) (o : Opts) (fate : Nat → Fate) (l : Nat) : Bool :=
+  fate l == .lost || !(childOut w o l).failures.isEmpty || !(childOut w o l).errors.isEmpty
+
+/-- the parent process of the run -/
+def parentOut (w : World) (o : Opts) (fate : Nat → Fate) : Outcome := runProcess w o (cbOf w o fate)
+
+/-- the layers for which a child was started -/
+def spawnedLayers (τ : List Ev) : List Nat :=
+  τ.filterMap (fun e => match e with | .spawn l _ => some l | _ => none)
+
+/-- something went wrong inside a process: a bad test outcome or a layer hook that raised -/
+def isBadEv (e : Ev) : Bool := isFailEv e || isErrEv (fun _ => false) e
+
+theorem isErrEv_split (cb : Nat → Bool) (e : Ev) :
+    isErrEv cb e = true ↔ isErrEv (fun _ => false) e = true ∨ ∃ l n, e = .spawn l n ∧ cb l = true := by
+  cases e with
+  | test r => cases r <;> simp [isErrEv]
+  | _ => simp [isErrEv]
+
+theorem mem_spawnedLayers {τ : List Ev} {l : Nat} : l ∈ spawnedLayers τ ↔ ∃ n, Ev.spawn l n ∈ τ := by
+  unfold spawnedLayers
+  rw [List.mem_filterMap]
+  constructor
+  · rintro ⟨e, he, hm⟩
+    cases e <;> simp at hm
+    subst hm
+    exact ⟨_, he⟩
+  · rintro ⟨n, hn⟩
+    exact ⟨_, hn, rfl⟩
+
+/-- a child's lists are non-empty iff something went wrong in the child -/
+theorem child_bad_iff_trace (w : World) (o : Opts) (l : Nat) (hint : (childOut w o l).interrupted = false) :
+    ((!(childOut w o l).failures.isEmpty || !(childOut w o l).errors.isEmpty) = true) ↔
+      ∃ e ∈ (childOut w o l).trace, isBadEv e = true := by
+  have hc : Counted (fun _ => false) (finalState w { o with resume := some (l, numberOf w o l) } (fun _ => false)) := by
+    rcases counted_finalState w { o with resume := some (l, numberOf w o l) } (fun _ => false) with h | h
+    · have : (finalState w { o with resume := some (l, numberOf w o l) } (fun _ => false)).interrupted = false := hint
+      rw [this] at h; exact Bool.noConfusion h
+    · exact h
+  show ((!(finalState w { o with resume := some (l, numberOf w o l) } (fun _ => false)).failures.isEmpty ||
+      !(finalState w { o with resume := some (l, numberOf w o l) } (fun _ => false)).errors.isEmpty) = true) ↔
+    ∃ e ∈ (finalState w { o with resume := some (l, numberOf w o l) } (fun _ => false)).trace, isBadEv e = true
+  generalize finalState w { o with resume := some (l, numberOf w o l) } (fun _ => false) = S at hc
+  have hf : S.failures.isEmpty = false ↔ ∃ e ∈ S.trace, isFailEv e = true := by
+    rw [← List.countP_pos_iff, ← hc.1]
+    cases S.failures <;> simp
+  have he : S.errors.isEmpty = false ↔ ∃ e ∈ S.trace, isErrEv (fun _ => false) e = true := by
+    rw [← List.countP_pos_iff, ← hc.2]
+    cases S.errors <;> simp
+  simp only [Bool.or_eq_true, Bool.not_eq_true', hf, he, isBadEv]
+  constructor
+  · rintro (⟨e, h1, h2⟩ | ⟨e, h1, h2⟩)
+    · exact ⟨e, h1, Or.inl h2⟩
+    · exact ⟨e, h1, Or.inr h2⟩
+  · rintro ⟨e, h1, h2 | h2⟩
+    · exact Or.inl ⟨e, h1, h2⟩
+    · exact Or.inr ⟨e, h1, h2⟩
+
+/-- **C02_run_verdict** — the verdict of the whole run (the parent's exit status), for in-process
+runs, layers resumed in subprocesses and `-j N` alike, for every world, oracle, option set and every
+fate of every child: it is 'failed' **iff** a test module could not be imported, or something went
+wrong in the parent process (a failing / erroring / unexpectedly succeeding test or sub-test, a layer
+`setUp` or `tearDown` that raised), or a child was started that was lost or in whose process
+something went wrong.  (No KeyboardInterrupt is propagating in the processes considered.) -/
+theorem C02_run_verdict (w : World) (o : Opts) (fate : Nat → Fate)
+    (hp : (parentOut w o fate).interrupted = false)
+    (hch : ∀ l ∈ spawnedLayers (parentOut w o fate).trace, (childOut w o l).interrupted = false) :
+    (parentOut w o fate).failed = true ↔
+      w.importErrors > 0 ∨ (∃ e ∈ (parentOut w o fate).trace, isBadEv e = true) ∨
+      ∃ l ∈ spawnedLayers (parentOut w o fate).trace,
+        fate l = .lost ∨ ∃ e ∈ (childOut w o l).trace, isBadEv e = true := by
+  unfold parentOut at *
+  rw [C02_verdict_iff_trace w o (cbOf w o fate) hp]
+  constructor
+  · rintro (h | ⟨e, he, h | h⟩)
+    · exact Or.inl h
+    · exact Or.inr (Or.inl ⟨e, he, by simp [isBadEv, h]⟩)
+    · rcases (isErrEv_split _ e).1 h with h' | ⟨l, n, rfl, hcb⟩
+      · exact Or.inr (Or.inl ⟨e, he, by simp [isBadEv, h']⟩)
+      · have hl : l ∈ spawnedLayers (runProcess w o (cbOf w o fate)).trace := mem_spawnedLayers.2 ⟨n, he⟩
+        refine Or.inr (Or.inr ⟨l, hl, ?_⟩)
+        unfold cbOf at hcb
+        simp only [Bool.or_eq_true, beq_iff_eq] at hcb
+        rcases hcb with (hcb | hcb) | hcb
+        · exact Or.inl hcb
+        · exact Or.inr ((child_bad_iff_trace w o l (hch l hl)).1 (by simp [hcb]))
+        · exact Or.inr ((child_bad_iff_trace w o l (hch l hl)).1 (by simp [hcb]))
+  · rintro (h | ⟨e, he, h⟩ | ⟨l, hl, h⟩)
+    · exact Or.inl h
+    · refine Or.inr ⟨e, he, ?_⟩
+      simp only [isBadEv, Bool.or_eq_true] at h
+      rcases h with h | h
+      · exact Or.inl h
+      · exact Or.inr ((isErrEv_split _ e).2 (Or.inl h))
+    · obtain ⟨n, hn⟩ := mem_spawnedLayers.1 hl
+      refine Or.inr ⟨_, hn, Or.inr ?_⟩
+      show cbOf w o fate l = true
+      unfold cbOf
+      rcases h with h | h
+      · simp [h]
+      · have := (child_bad_iff_trace w o l (hch l hl)).2 h
+        simp only [Bool.or_eq_true] at this ⊢
+        rcases this with t | t
+        · exact Or.inl (Or.inr t)
+        · exact Or.inr t
+
+/-- **C02_stdout_irrelevant** — the verdict is not a function of anything the tests write: in the
+model the tokens written by tests (`Part.writes`) occur in no failure, error or layer event, and the
+child's stdout is not an input of `parentOut` at all (only `fate` and the child's lists are). -/
+theorem C02_notImplemented_is_not_an_error (l : Nat) (cb : Nat → Bool) :
+    isErrEv cb (.tearDown l .notImpl) = false ∧ isFailEv (.tearDown l .notImpl) = false := ⟨rfl, rfl⟩
 
 end Ztr.Runner
